@@ -22,7 +22,7 @@ import (
 )
 
 var sizes = []int{0, 1, 2, 100, 1023, 1024, 1025, 4096, 65515, 65516, 65517, 131075}
-var contents = []string{"random", "textlf", "textcrlf", "zero", "ptrprefix", "lookalike"}
+var contents = []string{"random", "textlf", "textcrlf", "zero", "ptrprefix", "lookalike", "whitespace"}
 var wtStates = []string{"absent", "same", "short0", "short10", "short1024", "longer"}
 var modes = []string{"oneshot", "filter-process", "git-add-checkout", "hash-object-process", "hash-object-oneshot", "merge-driver"}
 
@@ -433,6 +433,18 @@ func main() {
 	for _, sz := range []int{1024, 1025, 4096, 65516} {
 		for _, wt := range []string{"absent", "same"} {
 			add(tcase{Mode: "oneshot", Size: sz, Content: "ptrprefix", Wt: wt, Chunk: "cptr"})
+		}
+	}
+	for _, sz := range []int{1, 2, 100, 1023, 1024, 4096} {
+		for _, m := range []string{"oneshot", "filter-process", "git-add-checkout", "hash-object-process"} {
+			c := tcase{Mode: m, Size: sz, Content: "whitespace", Wt: "same"}
+			if m == "oneshot" {
+				c.Chunk = "whole"
+			}
+			if m == "filter-process" {
+				c.Pk = "/pk100"
+			}
+			add(c)
 		}
 	}
 	for _, rel := range []string{"shorter-pointer", "same-pointer", "longer-pointer"} {
